@@ -15,7 +15,7 @@ PROP_MODULES = {
     'C01': ['obligations.e2_jobs', 'obligations.cache_ops', 'obligations.queue_ops'],
     'C02': ['obligations.e2_jobs', 'obligations.cache_ops'],
     'C13': ['obligations.e2_jobs', 'obligations.fanout_ops'],
-    'C06': ['obligations.block_ops'],
+    'C06': ['obligations.block_ops', 'obligations.persist_ops'],
     'C18': ['obligations.e2_jobs', 'obligations.persistence_ops', 'obligations.fanout_ops'],
     'C15': ['obligations.recipes_ops'],
     'C20': ['obligations.recipes_ops'],
@@ -24,7 +24,7 @@ PROP_MODULES = {
     'C11': ['obligations.persist_ops'],
     'C12': ['obligations.persist_ops'],
     'C05': ['obligations.conc_ops', 'obligations.block_ops', 'obligations.cache_ops', 'obligations.persist_ops', 'obligations.recipes_ops'],
-    'C07': ['obligations.cache_ops', 'obligations.queue_ops', 'obligations.persist_ops'],
+    'C07': ['obligations.cache_ops', 'obligations.queue_ops', 'obligations.persist_ops', 'obligations.block_ops'],
     'C14': ['obligations.cache_ops', 'obligations.queue_ops', 'obligations.fanout_ops'],
     'C16': ['obligations.e2_jobs', 'obligations.memo_ops'],
 }
